@@ -393,6 +393,8 @@ impl Property for P {
         });
         let mut mix = Mix::CLEAN.no_endings();
         mix.punct = 12;
+        mix.esc_tricky = 2;
+        mix.esc_bad = 1;
         let og = OptGen {
             width: prop_oneof![10 => 0usize..=20, 3 => 21usize..=60, 1 => 61usize..=1_000_000]
                 .boxed(),
